@@ -625,6 +625,10 @@ impl World {
                 // The context is parked inside a write the transport has not accepted yet: a
                 // QoS 0 publish / disconnect must not have completed ahead of its packet.
                 self.check_written_before_completed();
+                if self.wire.borrow().hard_budget == Some(0) {
+                    // persistent back-pressure: the block is lifted by an event, not by time
+                    break;
+                }
                 // the transport becomes writable again
                 self.wire.borrow_mut().wake_writer();
                 continue;
@@ -704,6 +708,21 @@ impl World {
         if !w.gate_closed {
             w.wake_reader();
         }
+    }
+    /// the transport accepts `k` more bytes and then blocks until `lift_write_block`
+    pub fn arm_write_block(&mut self, k: usize) {
+        self.wire.borrow_mut().hard_budget = Some(k);
+    }
+    pub fn lift_write_block(&mut self) {
+        let mut w = self.wire.borrow_mut();
+        w.hard_budget = None;
+        if w.write_blocked {
+            w.wake_writer();
+        }
+    }
+    pub fn hard_blocked(&self) -> bool {
+        let w = self.wire.borrow();
+        w.hard_budget == Some(0) && w.write_blocked
     }
     pub fn write_error(&mut self) {
         self.wire.borrow_mut().write_err = true;
